@@ -23,7 +23,8 @@ from . import coqterm as T
 HEADER = ('From PV Require Import Base.Prelude Wire.SeqSet '
           'UidRecent.Model UidRecent.Check.\n')
 
-NAMES = {0: b'INBOX', 1: b'Abox', 2: b'Bbox', 3: b'Cbox'}
+NAMES = {0: b'INBOX', 1: b'Abox', 2: b'Bbox', 3: b'Cbox',
+         5: b'Abox/Sub', 6: b'Bbox/Sub', 7: b'Cbox/Sub'}   # inferior of p is p + 4
 
 
 # ---------------------------------------------------------------- encoding
@@ -31,8 +32,28 @@ def enc_set(st) -> str:
     return 'None' if st is None else f'(Some {T.nlist(st)})'
 
 
+def enc_uset(st) -> str:
+    """None = 1:*, a list = UID set, ('seq', list) = message sequence numbers"""
+    if st is None:
+        return 'UAll'
+    if isinstance(st, tuple) and st and st[0] == 'seq':
+        return f'(USeqs {T.nlist(st[1])})'
+    return f'(UUids {T.nlist(st)})'
+
+
 def enc_op(op) -> str:
     k = op[0]
+    if k == 'delete':
+        return f'(Delete {T.N(op[1])} {T.N(op[2])})'
+    if k in ('idle', 'done'):
+        return f'({k.capitalize()} {T.N(op[1])})'
+    if k == 'idlewake':
+        return f'(IdleWake {T.N(op[1])})'
+    if k == 'makero':
+        return f'(MakeRo {T.N(op[1])})'
+    if k == 'adopt':
+        ms = T.lst(f'({T.N(m)}, {T.boolean(d)}, {T.boolean(r)})' for m, d, r in op[2])
+        return f'(Adopt {T.N(op[1])} {ms})'
     if k == 'create':
         return f'(Create {T.N(op[1])} {T.N(op[2])})'
     if k == 'rename':
@@ -49,7 +70,7 @@ def enc_op(op) -> str:
     if k == 'expunge':
         return f'(Expunge {T.N(op[1])} {enc_set(op[2])})'
     if k in ('copy', 'move'):
-        return f'({k.capitalize()} {T.N(op[1])} {enc_set(op[2])} {T.N(op[3])})'
+        return f'({k.capitalize()} {T.N(op[1])} {enc_uset(op[2])} {T.N(op[3])})'
     if k == 'status':
         return f'(Status {T.N(op[1])} {T.N(op[2])})'
     if k == 'store':
@@ -168,6 +189,8 @@ def message_bytes(mark: int) -> bytes:
 
 
 def set_bytes(st) -> bytes:
+    if isinstance(st, tuple) and st and st[0] == 'seq':
+        st = st[1]
     return b'1:*' if st is None else b','.join(b'%d' % u for u in st)
 
 
@@ -185,6 +208,8 @@ class World:
         self.log: list[dict] = []          # every command sent: s, cmd, raw
         self.hist: list[tuple] = []        # (op, obs)
         self.crashes: list[str] = []
+        self.idle: dict[int, bytes] = {}   # connection -> tag of its running IDLE
+        self.idle_rest: dict[int, bytes] = {}
 
     async def conn(self, s: int):
         c = self.conns.get(s)
@@ -218,9 +243,51 @@ class World:
 
     # -- one abstract operation -> canonical observation
     async def do(self, op) -> dict:
+        """Execute one operation; `self.hist` gains its entry, the entries of
+        the operations it implies (the STATUS that makes a maildir reset adopt
+        a dropped file) and one `idlewake` entry per idling connection that
+        was pushed something."""
         ob = await self._do(op)
         self.hist.append((op, ob))
+        if op[0] == 'adopt':
+            st_op = ('status', 7, op[1])
+            self.hist.append((st_op, await self._do(st_op)))
+        await self.poll_idlers()
         return ob
+
+    async def poll_idlers(self) -> None:
+        for s in sorted(self.idle):
+            c = self.conns.get(s)
+            if c is None or c.closed:
+                self.idle.pop(s, None)
+                continue
+            for _ in range(40):
+                await asyncio.sleep(0)
+            raw = self.idle_rest.pop(s, b'') + c.take()
+            if raw:
+                self.log.append({'s': s, 'cmd': b'(idle push)', 'raw': raw})
+                self.hist.append((('idlewake', s), {'k': 'ok', 'post': post_of(raw)}))
+
+    def drop_file(self, nm: int, mark: int, deleted: bool, in_new: bool) -> None:
+        """maildir: an outside agent delivers a message file into the folder"""
+        import os
+        folder = os.path.join(self.env.base, self.user.decode())
+        if nm != 0:
+            folder = os.path.join(folder, '.' + NAMES[nm].decode().replace('/', '.'))
+        name = '9%09d.V%d.verif' % (mark, mark)
+        if in_new:
+            path = os.path.join(folder, 'new', name)
+        else:
+            path = os.path.join(folder, 'cur', name + ':2,' + ('T' if deleted else ''))
+        with open(path, 'wb') as f:
+            f.write(message_bytes(mark))
+
+    async def make_readonly(self, nm: int) -> None:
+        """dict: the backend declares the mailbox read-only (as the demo data
+        do for Trash)"""
+        mailbox_set, _ = self.env.config.set_cache[self.user.decode()]
+        mbx = await mailbox_set.get_mailbox(NAMES[nm].decode())
+        mbx._readonly = True
 
     async def _simple(self, s: int, line: bytes) -> dict:
         st, _text, raw = await self.cmd(s, line)
@@ -232,6 +299,39 @@ class World:
 
     async def _do(self, op) -> dict:
         k, s = op[0], op[1]
+        if k == 'makero':
+            await self.make_readonly(op[1])
+            return {'k': 'ok', 'post': (0, None, None)}
+        if k == 'adopt':
+            await self.conn(7)      # the first login creates the INBOX maildir
+            for mark, dl, in_new in op[2]:
+                self.drop_file(op[1], mark, dl, in_new)
+            return {'k': 'ok', 'post': (0, None, None)}
+        if k == 'idle':
+            c = await self.conn(s)
+            self.ntag += 1
+            tag = b't%d' % self.ntag
+            raw = await asyncio.wait_for(c.send(tag + b' IDLE\r\n'), 20)
+            self.log.append({'s': s, 'cmd': b'IDLE', 'raw': raw})
+            if raw.startswith(b'+'):
+                self.idle[s] = tag
+                # changes pending at that moment are pushed right away
+                self.idle_rest[s] = raw.split(b'\r\n', 1)[1]
+                return {'k': 'ok', 'post': (0, None, None)}
+            st, _t = tagged(raw, tag)
+            return {'k': st}
+        if k == 'done':
+            tag = self.idle.pop(s)
+            c = self.conns[s]
+            raw = self.idle_rest.pop(s, b'') + c.take() \
+                + await asyncio.wait_for(c.send(b'DONE\r\n'), 20)
+            self.log.append({'s': s, 'cmd': b'DONE', 'raw': raw})
+            st, _t = tagged(raw, tag)
+            if st == 'ok':
+                return {'k': 'ok', 'post': post_of(raw)}
+            return {'k': st}
+        if k == 'delete':
+            return await self._simple(s, b'DELETE ' + NAMES[op[2]])
         if k == 'create':
             return await self._simple(s, b'CREATE ' + NAMES[op[2]])
         if k == 'rename':
@@ -270,8 +370,9 @@ class World:
             return {'k': 'append', 'v': int(m.group(1)), 'uids': m.group(2),
                     'post': post_of(raw)}
         if k in ('copy', 'move'):
-            line = (b'UID COPY ' if k == 'copy' else b'UID MOVE ') + set_bytes(op[2]) \
-                + b' ' + NAMES[op[3]]
+            seq = isinstance(op[2], tuple) and op[2] and op[2][0] == 'seq'
+            line = (b'' if seq else b'UID ') + (b'COPY ' if k == 'copy' else b'MOVE ') \
+                + set_bytes(op[2]) + b' ' + NAMES[op[3]]
             st, text, raw = await self.cmd(s, line)
             if st != 'ok':
                 return {'k': st}
@@ -347,10 +448,9 @@ class World:
 
 # ------------------------------------------------------------------ mirror
 class Mirror:
-    """The driver's own bookkeeping of names and selections, used to steer
-    generation (valid arguments, no command from a connection whose selected
-    name was re-bound to another mailbox).  Not a model: it only follows the
-    OK/NO answers."""
+    """The driver's own bookkeeping of names, selections and idling
+    connections, used to steer generation (mostly valid arguments).  Not a
+    model: it only follows the OK/NO answers."""
 
     def __init__(self) -> None:
         self.names = {0: 0}
@@ -358,40 +458,52 @@ class Mirror:
         self.sel: dict[int, tuple[int, int, bool] | None] = {}
         self.uids: dict[int, list[int]] = {0: []}
         self.nmark = 0
-
-    def stale(self, s: int) -> bool:
-        cur = self.sel.get(s)
-        if not cur:
-            return False
-        tok = self.names.get(cur[0])
-        return tok is not None and tok != cur[1]
+        self.idle: set[int] = set()
+        self.ro: set[int] = set()
 
     def follow(self, op, ob) -> None:
-        k, s = op[0], op[1]
+        k = op[0]
+        if k in ('makero', 'adopt'):
+            if k == 'makero' and op[1] in self.names:
+                self.ro.add(self.names[op[1]])
+            return
+        s = op[1]
         bye = ob.get('post') == 'bye'
         if k == 'create' and ob['k'] == 'ok':
             self.names[op[2]] = self.ntok
             self.uids[self.ntok] = []
             self.ntok += 1
+        elif k == 'delete' and ob['k'] == 'ok':
+            self.names.pop(op[2], None)
         elif k == 'rename' and ob['k'] == 'ok':
-            tok = self.names.pop(op[2])
-            self.names[op[3]] = tok
-            if op[2] == 0:
+            a, b = op[2], op[3]
+            tok = self.names.pop(a, None)
+            if tok is not None:
+                self.names[b] = tok
+            if a == 0:
                 self.names[0] = self.ntok
                 self.uids[self.ntok] = []
                 self.ntok += 1
+            elif 1 <= a <= 3 and 1 <= b <= 3 and a + 4 in self.names:
+                self.names[b + 4] = self.names.pop(a + 4)
         elif k == 'select':
             self.sel[s] = (op[2], self.names[op[2]], op[3]) if ob['k'] == 'select' else None
         elif k == 'close' and ob['k'] == 'ok':
             self.sel[s] = None
         elif k == 'logout':
             self.sel[s] = None
+            self.idle.discard(s)
+        elif k == 'idle' and ob['k'] == 'ok':
+            self.idle.add(s)
+        elif k == 'done':
+            self.idle.discard(s)
         elif k == 'append' and ob['k'] == 'append':
             self.uids[self.names[op[2]]].extend(expand_set(ob['uids']))
         elif k in ('copy', 'move') and ob['k'] == 'copy' and ob['r'] is not None:
             self.uids[self.names[op[3]]].extend(expand_set(ob['r'][2]))
         if bye:
             self.sel[s] = None
+            self.idle.discard(s)
 
 
 # --------------------------------------------------------------- generators
@@ -410,9 +522,13 @@ def gen_set(rng, known):
 def gen_op(rng, mir: Mirror, nsess: int, profile: str, *, maildir: bool = False):
     """One more operation of a random history."""
     s = rng.randrange(nsess)
-    if mir.stale(s):
-        return rng.choice([('select', s, rng.choice(list(mir.names)), rng.random() < 0.4),
-                           ('logout', s)])
+    if s in mir.idle:
+        if rng.random() < 0.35:
+            return ('done', s)
+        others = [x for x in range(nsess) if x not in mir.idle]
+        if not others:
+            return ('done', s)
+        s = rng.choice(others)
     cur = mir.sel.get(s)
     names = list(mir.names)
     free = [n for n in NAMES if n not in mir.names]
@@ -433,16 +549,24 @@ def gen_op(rng, mir: Mirror, nsess: int, profile: str, *, maildir: bool = False)
     if profile == 'uid':
         w = {'append': 22, 'copy': 14, 'move': 10, 'expunge': 9, 'store': 9, 'select': 12,
              'close': 3, 'status': 7, 'noop': 3, 'fetch': 8, 'create': 5, 'rename': 5,
-             'logout': 2}
+             'logout': 2, 'delete': 3, 'idle': 2, 'makero': 1, 'adopt': 6}
     else:
         w = {'append': 24, 'copy': 8, 'move': 5, 'expunge': 4, 'store': 8, 'select': 20,
              'close': 6, 'status': 6, 'noop': 5, 'fetch': 14, 'create': 2, 'rename': 1,
-             'logout': 3}
+             'logout': 3, 'delete': 2, 'idle': 4, 'makero': 1, 'adopt': 6}
     if maildir:
-        w['rename'] = 0
+        # RENAME of the maildir backend is the C11 builder's; IDLE polls with a
+        # real one-second timeout; read-only mailboxes do not exist
+        w['rename'] = w['idle'] = w['makero'] = 0
+    else:
+        w['adopt'] = 0
+    if mir.idle:
+        # the idler resolved its mailbox before it went to sleep: no name changes
+        w['create'] = w['rename'] = w['delete'] = w['makero'] = 0
     if not cur:
         for k in ('copy', 'move', 'expunge', 'store', 'close', 'fetch'):
             w[k] = w[k] // 6
+        w['idle'] = 0
     kinds = list(w)
     k = rng.choices(kinds, [w[x] for x in kinds])[0]
     known = mir.uids.get(cur[1], []) if cur else []
@@ -450,7 +574,12 @@ def gen_op(rng, mir: Mirror, nsess: int, profile: str, *, maildir: bool = False)
         nm = cur[0] if cur and rng.random() < 0.5 and cur[0] in mir.names else some_name()
         return ('append', s, nm, new_msgs())
     if k in ('copy', 'move'):
-        return (k, s, gen_set(rng, known), some_name())
+        if rng.random() < 0.3:
+            n = len(known) + 1
+            st = ('seq', sorted(rng.sample(range(1, n + 2), rng.randint(1, min(3, n + 1)))))
+        else:
+            st = gen_set(rng, known)
+        return (k, s, st, some_name())
     if k == 'expunge':
         return ('expunge', s, gen_set(rng, known) if rng.random() < 0.5 else None)
     if k == 'store':
@@ -467,10 +596,23 @@ def gen_op(rng, mir: Mirror, nsess: int, profile: str, *, maildir: bool = False)
     if k == 'create':
         return ('create', s, rng.choice(free) if free and rng.random() < 0.85
                 else rng.choice(list(NAMES)))
+    if k == 'delete':
+        return ('delete', s, some_name(0.1))
     if k == 'rename':
         a = rng.choice(names) if rng.random() < 0.9 else rng.choice(list(NAMES))
         b = rng.choice(free) if free and rng.random() < 0.85 else rng.choice(list(NAMES))
+        if 1 <= a <= 3 and a + 4 in mir.names and not 1 <= b <= 3:
+            # an inferior would move below an inferior name: outside the modelled names
+            return ('noop', s)
         return ('rename', s, a, b)
+    if k == 'makero':
+        cand = [n for n in names if n != 0]
+        return ('makero', rng.choice(cand)) if cand else ('noop', s)
+    if k == 'adopt':
+        mir.nmark += 1
+        in_new = rng.random() < 0.6
+        return ('adopt', rng.choice(names), [(mir.nmark, (not in_new) and rng.random() < 0.3,
+                                              in_new)])
     return (k, s)
 
 
@@ -596,6 +738,10 @@ class Monitor:
 
     def step(self, t: int, op, ob) -> None:
         k, s = op[0], op[1]
+        if k in ('makero', 'adopt'):          # labels of the environment
+            self.pending_assign = None
+            self.prev = (op, ob)
+            return
         cur = self.sel.get(s)
         pend, self.pending_assign = self.pending_assign, None
         prev, self.prev = self.prev, (op, ob)
@@ -610,12 +756,16 @@ class Monitor:
         elif k == 'create' and ob['k'] == 'ok':
             self.tok[op[2]] = self.ntok
             self.ntok += 1
+        elif k == 'delete' and ob['k'] == 'ok':
+            self.tok.pop(op[2], None)
         elif k == 'rename' and ob['k'] == 'ok':
             if op[2] in self.tok:
                 self.tok[op[3]] = self.tok.pop(op[2])
             if op[2] == 0:
                 self.tok[0] = self.ntok
                 self.ntok += 1
+            elif 1 <= op[2] <= 3 and 1 <= op[3] <= 3 and op[2] + 4 in self.tok:
+                self.tok[op[3] + 4] = self.tok.pop(op[2] + 4)
         elif k == 'append' and ob['k'] == 'append':
             v = self.key(op[2], ob['v'])
             uids = expand_set(ob['uids'])
@@ -751,10 +901,12 @@ async def run_history(env, user, password, ops_or_gen, *, maildir=False, probe=T
 
     async def one(op):
         nonlocal t
-        ob = await w.do(op)
-        mir.follow(op, ob)
-        mon.step(t, op, ob)
-        t += 1
+        n0 = len(w.hist)
+        await w.do(op)
+        for o, ob in w.hist[n0:]:
+            mir.follow(o, ob)
+            mon.step(t, o, ob)
+            t += 1
 
     try:
         if callable(ops_or_gen):
@@ -765,13 +917,10 @@ async def run_history(env, user, password, ops_or_gen, *, maildir=False, probe=T
                 await one(op)
         else:
             for op in ops_or_gen:
-                if op[0] not in ('select', 'logout') and mir.stale(op[1]):
-                    op = ('logout', op[1])
                 await one(op)
         if probe:
-            for s in sorted(w.conns):
-                if mir.stale(s):
-                    await one(('logout', s))
+            for s in sorted(mir.idle):
+                await one(('done', s))
             for op in final_probe(mir):
                 await one(op)
     finally:
@@ -789,6 +938,48 @@ def hist_json(hist):
             return {k: j(v) for k, v in x.items()}
         return x
     return [[j(op), j(ob)] for op, ob in hist]
+
+
+def fixed_histories_dict():
+    A = lambda s, nm, *ms: ('append', s, nm, list(ms))
+    return [
+        # a backend-read-only mailbox (like the demo Trash): selected read-only even by
+        # SELECT, refuses APPEND/COPY/MOVE into it, never claims \\Recent
+        ('readonly_box', [('create', 0, 1), A(0, 1, (1, False, False)), ('makero', 1),
+                          A(0, 1, (2, False, False)), ('select', 0, 1, False), ('fetch', 0),
+                          ('store', 0, None, 'add', True, False), ('expunge', 0, None),
+                          ('copy', 0, None, 0), ('copy', 0, None, 1), ('move', 0, None, 0),
+                          ('select', 1, 0, False), ('copy', 1, None, 1), ('move', 1, None, 1),
+                          ('close', 0), ('status', 1, 1), ('select', 2, 1, True), ('fetch', 2)]),
+        # RENAME INBOX by another connection (C04-F1) and by the selecting connection itself
+        ('rename_inbox_selected', [A(1, 0, (1, False, False)), ('select', 0, 0, False),
+                                   ('select', 2, 0, False), ('fetch', 0), ('rename', 2, 0, 1),
+                                   A(1, 0, (2, False, False)), ('noop', 2), ('fetch', 0),
+                                   ('status', 0, 0), ('status', 2, 1), ('select', 2, 1, False),
+                                   ('fetch', 2), ('select', 0, 0, False), ('fetch', 0)]),
+        # IDLE: deliveries and expunges by others are pushed; pending changes at IDLE start
+        ('idle_push', [('select', 0, 0, False), ('select', 1, 0, True), A(2, 0, (1, False, False)),
+                       ('idle', 0), ('idle', 1), A(2, 0, (2, True, False)),
+                       A(2, 0, (3, False, False), (4, False, False)), ('select', 2, 0, False),
+                       ('expunge', 2, None), ('done', 1), A(2, 0, (5, False, False)),
+                       ('done', 0), ('fetch', 0), ('fetch', 1), ('idle', 3), ('idle', 2),
+                       ('done', 2)]),
+    ]
+
+
+def fixed_histories_maildir():
+    A = lambda s, nm, *ms: ('append', s, nm, list(ms))
+    return [
+        # files appear in new/ and cur/ without a uidlist record (external delivery): the
+        # next reset gives them the next UIDs; those in new/ are claimed by the first SELECT
+        ('external_delivery', [A(0, 0, (1, False, False)), ('adopt', 0, [(2, False, True)]),
+                               ('select', 1, 0, True), ('fetch', 1),
+                               ('adopt', 0, [(3, True, False)]), ('select', 0, 0, False),
+                               ('fetch', 0), ('adopt', 0, [(4, False, True)]), ('fetch', 0),
+                               A(0, 0, (5, False, False)), ('select', 2, 0, False), ('fetch', 2),
+                               ('create', 0, 1), ('adopt', 1, [(6, False, False)]),
+                               ('copy', 2, None, 1), ('status', 0, 1)]),
+    ]
 
 
 async def add_dict_user(env, name: str, password: str) -> None:
@@ -938,6 +1129,25 @@ def fixed_histories():
                                    A(1, 0, (2, False, False)), ('noop', 0), ('copy', 0, [3], 0),
                                    ('move', 0, [1], 0), ('fetch', 0), ('select', 1, 0, False),
                                    ('fetch', 1)]),
+        # DELETE and re-CREATE: new UIDVALIDITY, UIDs restart; the connection that had the
+        # old mailbox selected is told it is gone (NO, BYE), never served the new one
+        ('delete_recreate', [('create', 0, 1), A(0, 1, (1, False, False), (2, False, False)),
+                             ('select', 1, 1, False), ('fetch', 1), ('delete', 0, 1),
+                             ('create', 0, 1), A(0, 1, (3, False, False)), ('status', 0, 1),
+                             ('fetch', 1), ('noop', 1), ('status', 1, 0), ('select', 2, 1, False),
+                             ('fetch', 2), ('delete', 2, 0), ('delete', 2, 5)]),
+        # hierarchy: RENAME carries the inferior, conflicts with a superior-only name
+        ('hierarchy', [('create', 0, 5), A(0, 5, (1, False, False)), ('rename', 0, 1, 2),
+                       ('status', 0, 6), ('create', 0, 1), ('rename', 0, 1, 2), ('create', 0, 2),
+                       A(0, 2, (2, False, False)), ('select', 1, 6, False), ('rename', 0, 2, 3),
+                       ('noop', 1), ('status', 0, 7), ('status', 0, 3), ('delete', 0, 3),
+                       ('status', 0, 7), ('rename', 0, 7, 1), ('status', 0, 1)]),
+        # message sequence numbers in COPY / MOVE (positions of the connection's own view)
+        ('seq_sets', [A(0, 0, (1, False, False), (2, False, False)), A(0, 0, (3, False, False)),
+                      ('select', 0, 0, False), ('select', 1, 0, False), ('expunge', 0, None),
+                      ('store', 1, [101], 'add', True, False), ('expunge', 1, None),
+                      ('copy', 0, ('seq', [1, 3]), 0), ('fetch', 0), ('copy', 0, ('seq', [1, 9]), 0),
+                      ('move', 0, ('seq', [2]), 0), ('fetch', 0), ('fetch', 1)]),
         # STORE with \Recent in every mode
         ('store_recent', [A(0, 0, (1, False, False), (2, False, False)), ('select', 0, 0, False),
                           ('fetch', 0), ('store', 0, None, 'del', False, True), ('fetch', 0),
@@ -1097,7 +1307,7 @@ def run_check(ctx, prop: str) -> None:
     ctx.check_proofs(['UidRecent/Check'])
     rng = ctx.rng
     specs = []
-    nb = ctx.scale(10, 40)
+    nb = ctx.scale(9, 40)
     per = ctx.scale(20, 50)
     for _ in range(nb):
         specs.append({'kind': 'random', 'seed': rng.getrandbits(40), 'n': per, 'profile': profile})
@@ -1109,20 +1319,25 @@ def run_check(ctx, prop: str) -> None:
     for _ in range(ctx.scale(3, 12)):
         specs.append({'kind': 'random', 'seed': rng.getrandbits(40), 'n': ctx.scale(8, 25),
                       'profile': profile, 'maildir': True, 'maxops': 16})
-    specs.append({'kind': 'fixed', 'hists': fixed_histories()})
-    specs.append({'kind': 'fixed', 'hists': fixed_histories(), 'maildir': True})
+    specs.append({'kind': 'fixed', 'hists': fixed_histories() + fixed_histories_dict()})
+    specs.append({'kind': 'fixed', 'hists': fixed_histories() + fixed_histories_maildir(),
+                  'maildir': True})
     # every interleaving of small per-connection scripts
     names = sorted(recent_scripts())
     pairs = [(a, b) for i, a in enumerate(names) for b in names[i:]]
     triples_pool = ['rw', 'ro', 'app', 'app2', 'rw_logout', 'ro_app']
+    lib0 = recent_scripts()
     nmsg = {k: sum(len(op[3]) for op in v if op[0] == 'append')
-            for k, v in recent_scripts().items()}
+            for k, v in lib0.items()}
     triples = [(a, b, c) for i, a in enumerate(triples_pool)
                for j, b in enumerate(triples_pool[i:], i) for c in triples_pool[j:]
                if nmsg[a] + nmsg[b] + nmsg[c] <= 2]
     if ctx.quick:
-        pairs = rng.sample(pairs, 18 if full else 8)
-        triples = rng.sample(triples, 4 if full else 2)
+        pairs = rng.sample(pairs, 14 if full else 6)
+        small = [t for t in triples
+                 if math.factorial(sum(len(lib0[x]) for x in t))
+                 // math.prod(math.factorial(len(lib0[x])) for x in t) <= 90]
+        triples = rng.sample(small, 3 if full else 1)
     else:
         triples = triples if full else rng.sample(triples, 30)
     for k in range(0, len(pairs), 4):
@@ -1221,10 +1436,12 @@ def run_check(ctx, prop: str) -> None:
         'correspondence would disagree otherwise',
         'CPython refcounting removes a dropped SelectedMailbox from the WeakSet at once '
         '(the driver calls gc.collect() after every closed connection)',
-        'commands of a connection whose selected name was re-bound to another mailbox are not '
-        'modelled (open finding C04-F1); the driver logs such a connection out instead',
-        'mailboxes declared read-only by the backend (demo Trash) and hierarchical names are '
-        'outside the generated histories',
+        'IDLE: the generator issues no CREATE/RENAME/DELETE while a connection idles (the idler '
+        'resolved its mailbox before it went to sleep); maildir IDLE (1 s poll) is not driven',
+        'names: INBOX, three top-level names and one inferior of each; a RENAME that would move '
+        'an inferior below an inferior name is not generated',
+        'maildir external delivery: one dropped file at a time, adopted by the STATUS that '
+        'follows (the listing order of several unknown files is not modelled)',
     ]
 
 
